@@ -145,6 +145,23 @@ Theorem ifplanner_terminates :
 Proof. exact ifp_terminates_lemma. Qed.
 Print Assumptions ifplanner_terminates.
 
+(* The relaxation hypothesis cannot be dropped, and the current InterpretedFunctionsRemover does not always satisfy
+   it (open findings C31-IF-EFFECT-CONDITION-READS-UNKNOWN, C31-IF-BOUNDED-STALE-VALUE: harness corpus problems
+   "effect-condition-reads-unknown", "bounded-stale-value"): with a sound and complete engine, a validator that is
+   exact and growing knowledge, the loop answers UNSOLVABLE_PROVEN on a solvable problem as soon as the compiled problem
+   is not a relaxation.  So "finds a plan whenever the problem is solvable" is refuted for the loop alone. *)
+Theorem ifplanner_complete_without_relaxation_refuted :
+  exists (planner : nat -> status * option nat) (validate : nat -> bool * unit) (update : nat -> unit -> nat)
+         (size : nat -> nat) (valid : nat -> bool) (validC : nat -> nat -> bool),
+    (forall p, fst (validate p) = valid p) /\
+    (forall k st pl, planner k = (st, pl) -> positive st = true -> exists p, pl = Some p /\ validC k p = true) /\
+    (forall k, (exists p, validC k p = true) -> positive (fst (planner k)) = true) /\
+    (forall k p, validC k p = true -> valid p = false -> size k < size (update k (snd (validate p)))) /\
+    (exists p, valid p = true) /\
+    forall fuel, ifp_loop nat nat unit planner validate update size (S fuel) 0 = Returned UnsolvProven None.
+Proof. exact ifp_complete_needs_relaxation. Qed.
+Print Assumptions ifplanner_complete_without_relaxation_refuted.
+
 (* ------------------------------------------------------------------ non-vacuity *)
 (* two soft goals with gains 2 and -1; three reachable states; the heaviest subset {0} is unachievable, so the answer
    is the plan for {0,1} with gain 1 *)
